@@ -60,7 +60,7 @@ CFG = dict(
         "b64_decode_reject_pad_bits": 100, "b64_decode_reject_pad_position": 100, "b64_decode_reject_alphabet": 100,
         "b64_encode_appended_at_len": 100, "short_buffer_refused_nothing_written": 100, "hex_decode_odd_length": 100,
         "utf8_split_inside_codepoint": 100, "b64_input_4090_4100": 40,
-        "mt_codec_calls_concurrent": 100000, "mt_four_or_more_threads": 30, "base64_texts_above_4GiB_decoded": 2, "hex_inputs_above_4GiB_encoded": 2,
+        "mt_codec_calls_concurrent": 100000, "mt_four_or_more_threads": 30, "base64_texts_above_4GiB_decoded": 2, "hex_inputs_above_4GiB_encoded": 2, "utf8_texts_above_2GiB_decoded_in_one_call": 2,
     }},
     post=c05_codecs.post,
 )
@@ -85,4 +85,4 @@ META = dict(
     technique="runtime monitoring: reference-codec oracle + double-fill written-bytes test + canaries + cross-path digests + ASan/UBSan",
 )
 
-CFG["rule"] += (" " + 'Additions: one UTF-8 text in six starts with a (possibly damaged) byte-order mark; stale aws_last_error()/errno between calls; stages giant_vector / giant_portable decode one text of 4 GiB + 64 MiB in one call (every output byte compared, an illegal character beyond offset 2^32 must be refused). The giant stages also hex-encode 4 GiB + 24 bytes in one call (aws_hex_encode / aws_hex_encode_append_dynamic by case parity; marker bytes around the 4 GiB mark, reported length, all-zero middle, bytes behind the end).')
+CFG["rule"] += (" " + 'Additions: one UTF-8 text in six starts with a (possibly damaged) byte-order mark; stale aws_last_error()/errno between calls; stages giant_vector / giant_portable decode one text of 4 GiB + 64 MiB in one call (every output byte compared, an illegal character beyond offset 2^32 must be refused). The giant stages also hex-encode 4 GiB + 24 bytes in one call (aws_hex_encode / aws_hex_encode_append_dynamic by case parity; marker bytes around the 4 GiB mark, reported length, all-zero middle, bytes behind the end). They also validate a UTF-8 text of 2 GiB + 16 bytes in one aws_decode_utf8 call (code point count and sum; a lone 0xFF beyond the 2 GiB mark and at offset 7 must be refused).')
